@@ -34,6 +34,16 @@ KIND = {
     "R18.1": "W", "R18.2": "T", "R18.3a": "S", "R18.3b": "S", "R18.4": "W", "R18.5": "T", "R18.6": "T", "R18.7": "T", "R18.8": "W", "R18.9": "W", "R18.10": "W", "R18.11": "S",
     "R19.1a": "S", "R19.1b": "W", "R19.1c": "T", "R19.2": "W", "R19.3": "T", "R19.4": "T", "R19.5": "S", "R19.6": "T",
     "R20.1": "T", "R20.3": "W", "R20.4": "W", "R20.5": "S",
+    "R01.11": "W",
+    "R19.7": "W",
+    "R07.10": "W",
+    "R14.7": "S",
+    "R02.8": "W",
+    "R12.3": "W",
+    "R01.12": "W",
+    "R03.6": "W",
+    "R14.8": "W",
+    "R06.9": "T",
     "SELF": "self-validation of the checker on single-edit variants of the current tree",
 }
 NAMES = {"S": "structural / dataflow analysis of the resolved program (all inputs)",
@@ -42,6 +52,8 @@ NAMES = {"S": "structural / dataflow analysis of the resolved program (all input
 
 
 def method(rule):
+    if "/" in rule:                       # a borrowed rule R<prop>/<original id>
+        rule = rule.split("/", 1)[1]
     k = KIND.get(rule, "?")
     if "+" in k:
         return " + ".join(NAMES.get(x, x) for x in k.split("+"))
